@@ -3,7 +3,7 @@ use crate::compiler::prelude::*;
 fn abs(value: Value) -> Resolved {
     match value {
         Value::Float(f) => Ok(Value::from_f64_or_zero(f.abs())),
-        Value::Integer(i) => Ok(Value::from(i.abs())),
+        Value::Integer(i) => Ok(Value::from(i.wrapping_abs())),
         value => Err(ValueError::Expected {
             got: value.kind(),
             expected: Kind::float() | Kind::integer(),
